@@ -120,7 +120,7 @@ func checkC09(p *Prog, r *Report) {
 		impl+" returns the untyped nil interface for a nil pointer attribute: Less finds no arm for it (no ordering among wrapped structs with nil values) and the assertion of the other value to *T panics when it is nil and the first is not")
 
 	// ---- Range
-	n := checkSpliceLoops(p, r, pc, rng)
+	n := checkSpliceLoopsScope(p, r, pc, rng)
 	r.count("splices in Range", n)
 
 	h := newHeap(p)
